@@ -1,4 +1,5 @@
 import CrdtModel.Audit.Tool
 import CrdtModel.Props.C05
+import CrdtModel.Props.C05Nested
 #audit_ns Crdt.C05
 #audit_ns Crdt.CMap
